@@ -220,8 +220,13 @@ def run(ctx):
         if callee_short(s) == "get_type":
             nm = "nested-get_type#%d" % member_sinks.index(s)
             _check_gate(ctx, "R04.2", fd, s, nm, "vis", vis_min, [G.pred_true("in_forcetype")], " (or in_forcetype)")
+        elif callee_short(s) in ("get_make_property", "get_make_seq"):
+            # define_method and scan_element apply the visibility test themselves (R04.1/R04.2); these two do not
+            _check_gate(ctx, "R04.2", fd, s, "%s#%d" % (callee_short(s), member_sinks.index(s)), "vis", vis_min)
 
     _access_labels(ctx)
+    _accessible_accessors(ctx)
+    _command_file_lines(ctx)
     # ------------------------------------------------------------ R04.3
     _siblings(ctx)
     # ------------------------------------------------------------ R04.4
@@ -604,3 +609,87 @@ def _transparent_wrappers(ctx):
                        "a %s is looked through: %s" % (sub, got))
     ctx.floor("R04.9", "wrapper arms", n, 8)
 
+
+
+
+def _accessible_accessors(ctx):
+    """R04.10: MAKE_PROPERTY / MAKE_SEQ name their accessors; get_make_property()/get_make_seq() look the name up among
+    ALL methods of the class and hand the chosen one to get_function(), which exports it without any visibility test
+    (define_method, the normal path, makes that test before it calls get_function).  A private or protected candidate
+    must be skipped, or the binding calls a method C++ would not let the caller reach.  (F-C04b.)"""
+    db = ctx.db
+    ctx.rule("R04.10", "in get_make_property()/get_make_seq(), a method reaches get_function() - or is remembered as getter/setter/... - only behind a test that its _vis is at most V_public")
+    n = 0
+    for short in ("get_make_property", "get_make_seq"):
+        f = db.fn(B + short)
+        loops = [lp for lp in f.walk() if lp.get("k") == "for" and any(y.get("k") == "mem" and (y.get("n") or "").endswith("CPPFunctionGroup::_instances") for y in walk(lp.get("c") or {}) )]
+        if not loops:
+            loops = [lp for lp in f.walk() if lp.get("k") == "for" and "_instances" in show(lp.get("c") or {})]
+        for i, lp in enumerate(loops):
+            n += 1
+            body = lp.get("body")
+            # the loop variable: the local initialised from *fi
+            cand = None
+            for y in walk(body):
+                if y.get("k") == "decls":
+                    for d in y["d"]:
+                        if (d.get("t") or "").replace(" ", "") == "CPPInstance*" and d.get("init") is not None:
+                            cand = d
+                            break
+                if cand:
+                    break
+            if cand is None:
+                ctx.ob("R04.10", "%s|loop#%d|candidate" % (short, i), False, f.loc(lp), "no `CPPInstance *function = (*fi)` found in the candidate loop")
+                continue
+            d = cand["d"]
+
+            def accessible(atom, truth, d=d):
+                c = G.cmp_atom(atom)
+                if not c:
+                    return False
+                op, u, v = c
+                if not truth:
+                    op = G.NEG[op]
+                for p, q, o in ((u, v, op), (v, u, G.SWAP[op])):
+                    pp = strip_casts(peel(p)) if p is not None else None
+                    if pp is not None and pp.get("k") == "mem" and (pp.get("n") or "").endswith("::_vis") and (local_ref(pp.get("b")) or {}).get("d") == d:
+                        qq = strip_casts(peel(q)) if q is not None else None
+                        name = (qq or {}).get("n", "") if qq is not None else ""
+                        if name.endswith("V_public"):
+                            return o in ("<=",)
+                        if name.endswith("V_protected"):
+                            return o in ("<",)
+                        if name.endswith("V_published"):
+                            return o in ("<=", "==")
+                return False
+            edges = G.edges_where(f, accessible)
+            uses = []
+            for y in walk(body):
+                if y.get("k") == "call" and y.get("f") == B + "get_function" and y.get("a") and (local_ref(y["a"][0]) or {}).get("d") == d:
+                    uses.append(y)
+                t = assigned_target(y)
+                if t and (local_ref(t[1]) or {}).get("d") == d:
+                    uses.append(y)
+            ok = bool(uses) and bool(edges) and all(G.gated(f, y, edges) for y in uses)
+            ctx.ob("R04.10", "%s|loop#%d|candidate-accessible" % (short, i), ok, f.loc(lp),
+                   "%d use(s) of the candidate `%s` (get_function / remembered) are %sbehind `%s->_vis <= V_public`" % (len(uses), cand["n"], "" if ok else "NOT all ", cand["n"]))
+    ctx.floor("R04.10", "accessor candidate loops", n, 8)
+
+
+def _command_file_lines(ctx):
+    """R04.11: a command file excludes members, types and files.  Its last line counts even when the file does not end
+    in a newline: std::getline() then sets eofbit WITHOUT failbit, so a read loop that stops at eof() drops that line.
+    (F-C04a: `ignoremember secret` as the whole file was ignored.)"""
+    db = ctx.db
+    ctx.rule("R04.11", "read_command_file()'s loop over getline() does not end on eof(): it runs while the last getline() did not fail")
+    f = db.fn(B + "read_command_file")
+    loops = [lp for lp in f.walk() if lp.get("k") in ("while", "for", "do") and any(y.get("k") == "call" and callee_short(y) == "do_command" for y in walk(lp.get("body") or {}))]
+    if not loops:
+        ctx.broken("R04.11: the loop of read_command_file that calls do_command not found")
+    lp = loops[0]
+    eofs = [y for y in walk(lp.get("c") or {}) if y.get("k") == "call" and callee_short(y) == "eof"]
+    ctx.ob("R04.11", "read_command_file|loop-does-not-stop-at-eof", not eofs, f.loc(lp), "loop condition `%s`" % show(lp.get("c"))[:60])
+    fails = [y for y in walk(lp.get("c") or {}) if y.get("k") == "call" and callee_short(y) in ("fail", "operator bool", "operator!", "good")] or \
+            [y for y in walk(lp.get("c") or {}) if y.get("k") == "call" and callee_short(y) == "getline"]
+    ctx.ob("R04.11", "read_command_file|loop-tests-the-read", bool(fails) and not any(callee_short(y) == "good" for y in fails), f.loc(lp),
+           "the loop is controlled by the outcome of the read (fail()/stream-as-bool/getline in the condition), not by good()")
